@@ -45,6 +45,11 @@ def draw_cfg(st):
     world = ["seq", "threads"][st.weighted([90, 10], "world")]
     cfg = {
         "world": world,
+        # with failing destinations a report about the remote action's end message is logged in whatever
+        # context the calling thread is left with; in a *copied* context that is the originating thread's
+        # Action, used from two threads at once -- which eliot documents as unsupported -- so that
+        # invocation style is not combined with destination faults
+        "preserve_how": ["thread", "inline"],
         "max_ops": [8, 20, 40][st.choose(3, "size")],
         "max_depth": 2 + st.choose(4, "depth"),
         "p_more": [0.8, 0.6, 0.9][st.choose(3, "p_more")],
